@@ -244,6 +244,8 @@ class Interp:
             if r:
                 fv = self.make_function(r[2], r[0].module, f"{r[0].qualname}.__call__", self.module_env(r[0].module), cls=r[0].qualname)
                 return self.call_function(fv, [f] + list(args), kwargs)
+        if isinstance(f, ModuleRef):
+            raise Unsupported(f"library function {f.path} is not modelled")
         raise PyRaise("TypeError", f"object {f!r} is not callable")
 
     def instantiate(self, cref, args, kwargs):
